@@ -4,6 +4,8 @@ import PfModel.Model.HashableKeys
 import PfModel.Model.HashableSort
 import PfModel.Model.HashablePandas
 import PfModel.Model.HashableCalls
+import PfModel.Model.HashableSub
+import PfModel.Model.HashableSubRel
 /-! Driver for C15 (`keys`, `memo`; the keys around `to_hashable`: `memokeys`, `pipekeys`, `mapkeys`, `bind`, `pcache`). Run: `lake env lean --run Driver/C15.lean < requests.jsonl`. -/
 open Lean PF.Drv PF.Hashable
 
@@ -101,15 +103,48 @@ def putPVL : List PV → List Json
   | x :: xs => putPV x :: putPVL xs
 end
 
+/-- wide values (`Model/HashableSub.lean`): a container node may carry `"sub": n`, the number of the user subclass it is an instance of -/
+def getWV : Nat → Json → R WV
+  | 0, _ => .error "value nested too deeply"
+  | fuel + 1, j =>
+    match fld? j "k" with
+    | some _ => do
+      let k ← getKind j
+      let s ← optF asNat j "sub"
+      let xs ← (← asArr (← fld j "x")).mapM (getWV fuel)
+      return .node k s xs
+    | none => do return .atom (← getAtom j)
+
 def putErr : Err → Json
   | .typeError => jObj [("err", jStr "TypeError")]
   | .partialOrder => jObj [("unspec", jStr "partial-order")]
   | .malformed => jObj [("err", jStr "malformed")]
 
+/-- `cmp`: `comparable v` (`C15_defined_iff`: for well-formed values a key exists iff it holds) -/
 def putKey (esc : Bool) (v : PV) : Json :=
   match key esc v with
-  | .ok k => jObj [("key", putPV k), ("hashable", jBool (hashable k)), ("wf", jBool (wf v)), ("raw", jBool (k == v))]
+  | .ok k => jObj [("key", putPV k), ("hashable", jBool (hashable k)), ("wf", jBool (wf v)), ("raw", jBool (k == v)), ("cmp", jBool (comparable v))]
+  | .error e => jObj ((match e with
+      | .typeError => [("err", jStr "TypeError")]
+      | .partialOrder => [("unspec", jStr "partial-order")]
+      | .malformed => [("err", jStr "malformed")]) ++ [("wf", jBool (wf v)), ("cmp", jBool (comparable v))])
+
+/-- `wkey true v`; `asis`: returned as it is (then the key is the base value), `core`: the key equals the core model's key of the
+    base value (false exactly when a subclass tag occurs in it) -/
+def putWKey (f : Nat → Cls) (v : WV) : Json :=
+  match wkey true v with
+  | .ok k => jObj [("key", putPV k), ("hashable", jBool (hashable k)), ("asis", jBool v.asIs), ("plain", jBool v.plain),
+                   ("core", jBool (decide (key true v.base = .ok k))), ("basetag", jBool (decide (wkeyBaseTagged v = .ok k))),
+                   ("subok", jBool (v.subOk f))]
   | .error e => putErr e
+
+/-- `"bases": [[class number, builtin base], …]`: the table `f` of `WV.subOk` (a class that is not listed is no user subclass) -/
+def getBases (a : Json) : R (Nat → Cls) := do
+  match fld? a "bases" with
+  | none => return fun n => .other n
+  | some j =>
+    let tbl ← asList (asPair asNat getCls) j
+    return fun n => (tbl.lookup n).getD (.other n)
 
 def memoRun : Memo → List PV → List Json
   | _, [] => []
@@ -193,6 +228,10 @@ def handle (m : String) (a : Json) : R Json := do
     let vs ← (← asArr (← fld a "values")).mapM (getPV 64)
     let esc := (← optF asBool a "esc").getD true
     return jList (putKey esc) vs
+  | "wkeys" =>
+    let vs ← (← asArr (← fld a "values")).mapM (getWV 64)
+    let f ← getBases a
+    return jList (putWKey f) vs
   | "memo" =>
     let vs ← (← asArr (← fld a "args")).mapM (getPV 64)
     return jArr (memoRun {} vs)
